@@ -4,6 +4,7 @@ CONSTANTS
   MaxRec = 3
   MaxEp = 2
   FetchMax = 2
+  WideEvery = 2
   SlowTimeouts = TRUE
   ZombieSteals = FALSE
   MaxTick = 1
